@@ -3,6 +3,7 @@
 //! One generic implementation, instantiated for every instrumented
 //! component type (comps.rs).
 
+use crate::caps::Caps;
 use crate::comps::*;
 use crate::ledger::give_back;
 use serde_json::{json, Value};
@@ -25,6 +26,9 @@ pub trait StoreOps: Send + Sync {
     /// One storage operation through a handle. Returns (cls, res-fields).
     fn sop(&self, world: &World, path: &str, e: Entity, c: (u32, u32), wval: i64) -> Value;
     fn sweep(&self, world: &World, hs: &[Entity]) -> Value;
+    fn tracked(&self) -> &'static str;
+    /// whole-storage operation; `base` is the first of 64 fresh values that may be written
+    fn wop(&self, world: &World, op: &Value, base: i64) -> Option<Value>;
     fn with_builder<'a>(&self, b: EntityBuilder<'a>, c: (u32, u32)) -> EntityBuilder<'a>;
     fn with_res_builder<'a>(
         &self,
@@ -53,9 +57,9 @@ fn optjs<T: TokComp>(o: Option<&T>) -> Value {
     }
 }
 
-impl<T: TokComp> StoreOps for Ops<T>
+impl<T: TokComp + Caps> StoreOps for Ops<T>
 where
-    T::Storage: Default,
+    T::Storage: Default + Sync,
 {
     fn kind(&self) -> &'static str {
         T::KIND
@@ -82,6 +86,205 @@ where
             }
             _ => panic!("harness: unknown registration method {}", how),
         }
+        T::register_reader(world);
+    }
+
+    fn tracked(&self) -> &'static str {
+        T::tracked()
+    }
+
+    fn wop(&self, world: &World, op: &Value, base: i64) -> Option<Value> {
+        let k = op["k"].as_str().unwrap_or("");
+        let v = op["v"].as_str().unwrap_or("join");
+        let selm = op["sel"].as_u64().unwrap_or(0xffff);
+        let wselm = op["wsel"].as_u64().unwrap_or(0xffff);
+        let zst = T::ZST;
+        // -2: not fetched mutably, -1: fetched but not written, >= 0: value written
+        let sel = move |j: usize| -> i64 {
+            if (selm >> (j % 16)) & 1 == 0 {
+                -2
+            } else if (wselm >> (j % 16)) & 1 == 0 {
+                -1
+            } else if zst {
+                0
+            } else {
+                base + (j % 64) as i64
+            }
+        };
+        let r = match k {
+            "drain" => {
+                let n = op["n"].as_i64().unwrap_or(-1);
+                let ents = world.entities();
+                let mut st = world.write_storage::<T>();
+                let mut items = vec![];
+                let mut it = (&ents, st.drain()).join();
+                loop {
+                    if n >= 0 && items.len() as i64 >= n {
+                        break;
+                    }
+                    match it.next() {
+                        Some((e, c)) => {
+                            items.push(json!([e.id(), c.js()]));
+                            give_back(c);
+                        }
+                        None => break,
+                    }
+                }
+                json!({"n": n, "items": items})
+            }
+            "clear" => {
+                let mut st = world.write_storage::<T>();
+                st.clear();
+                json!({})
+            }
+            "count" => {
+                let st = world.read_storage::<T>();
+                json!({"n": st.count(), "b": st.is_empty()})
+            }
+            "join" => {
+                let ents = world.entities();
+                let st = world.read_storage::<T>();
+                let items: Vec<Value> = match v {
+                    "lend" => {
+                        let mut out = vec![];
+                        let mut it = (&ents, &st).lend_join();
+                        while let Some((e, c)) = it.next() {
+                            out.push(json!([e.id(), c.js()]));
+                        }
+                        out
+                    }
+                    "lend_for_each" => {
+                        let mut out = vec![];
+                        (&ents, &st).lend_join().for_each(|(e, c)| out.push(json!([e.id(), c.js()])));
+                        out
+                    }
+                    "par" => {
+                        let out = std::sync::Mutex::new(vec![]);
+                        (&ents, &st).par_join().for_each(|(e, c)| {
+                            out.lock().unwrap().push((e.id(), json!([e.id(), c.js()])));
+                        });
+                        let mut o = out.into_inner().unwrap();
+                        o.sort_by_key(|x| x.0);
+                        o.into_iter().map(|x| x.1).collect()
+                    }
+                    _ => (&ents, &st).join().map(|(e, c)| json!([e.id(), c.js()])).collect(),
+                };
+                json!({"k":"join","items": items})
+            }
+            "joinmut" => {
+                let items = match v {
+                    "lend" => {
+                        let ents = world.entities();
+                        let mut st = world.write_storage::<T>();
+                        let mut out = vec![];
+                        let mut it = (&ents, &mut st).lend_join();
+                        let mut j = 0;
+                        while let Some((e, mut a)) = it.next() {
+                            let before = (&*a).js();
+                            let wv = sel(j).max(-1);
+                            if wv >= 0 {
+                                a.access_mut().set_val(wv as u32);
+                            }
+                            out.push(json!([e.id(), before, wv]));
+                            j += 1;
+                        }
+                        out
+                    }
+                    _ => T::join_mut(world, v, &sel)?,
+                };
+                json!({"items": items})
+            }
+            "joinent" => {
+                let ents = world.entities();
+                let st = world.read_storage::<T>();
+                let items: Vec<Value> = (&ents, &st)
+                    .join()
+                    .map(|(e, c)| json!([[e.id(), e.gen().id()], c.js()]))
+                    .collect();
+                json!({"items": items})
+            }
+            "entries" => {
+                let ents = world.entities();
+                let mut st = world.write_storage::<T>();
+                let mut items = vec![];
+                let mut it = (&ents, st.entries()).lend_join();
+                while let Some((e, en)) = it.next() {
+                    let c = match en {
+                        StorageEntry::Occupied(o) => o.get().js(),
+                        StorageEntry::Vacant(_) => absent(),
+                    };
+                    items.push(json!([[e.id(), e.gen().id()], c]));
+                }
+                json!({"items": items})
+            }
+            "restrict" => {
+                let items: Vec<Value> = match v {
+                    "read" => {
+                        let ents = world.entities();
+                        let st = world.read_storage::<T>();
+                        let r = st.restrict();
+                        (&ents, &r).join().map(|(e, it)| json!([e.id(), it.get().js(), false, -2])).collect()
+                    }
+                    "read_lend" => {
+                        let ents = world.entities();
+                        let st = world.read_storage::<T>();
+                        let r = st.restrict();
+                        let mut out = vec![];
+                        let mut j = (&ents, &r).lend_join();
+                        while let Some((e, it)) = j.next() {
+                            out.push(json!([e.id(), it.get().js(), false, -2]));
+                        }
+                        out
+                    }
+                    "read_par" => {
+                        let ents = world.entities();
+                        let st = world.read_storage::<T>();
+                        let r = st.restrict();
+                        let out = std::sync::Mutex::new(vec![]);
+                        (&ents, &r).par_join().for_each(|(e, it)| {
+                            out.lock().unwrap().push((e.id(), json!([e.id(), it.get().js(), false, -2])));
+                        });
+                        let mut o = out.into_inner().unwrap();
+                        o.sort_by_key(|x| x.0);
+                        o.into_iter().map(|x| x.1).collect()
+                    }
+                    "mut_lend" => {
+                        let ents = world.entities();
+                        let mut st = world.write_storage::<T>();
+                        let mut r = st.restrict_mut();
+                        let mut out = vec![];
+                        let mut it = (&ents, &mut r).lend_join();
+                        let mut j = 0;
+                        while let Some((e, mut item)) = it.next() {
+                            let read = item.get().js();
+                            let wv = sel(j);
+                            if wv >= -1 {
+                                let mut a = item.get_mut();
+                                if wv >= 0 {
+                                    a.access_mut().set_val(wv as u32);
+                                }
+                            }
+                            out.push(json!([e.id(), read, wv >= -1, wv]));
+                            j += 1;
+                        }
+                        out
+                    }
+                    _ => T::restrict_mut(world, v, &sel)?,
+                };
+                json!({"mode": v, "items": items})
+            }
+            "slice" => T::slice(world)?,
+            "slicemut" => T::slice_mut(world, &sel)?,
+            "setemit" => {
+                let b = op["b"].as_bool().unwrap_or(true);
+                if !T::set_emit(world, b) {
+                    return None;
+                }
+                json!({"b": b})
+            }
+            _ => return None,
+        };
+        Some(r)
     }
 
     fn sop(&self, world: &World, path: &str, e: Entity, c: (u32, u32), wval: i64) -> Value {
@@ -412,7 +615,11 @@ where
             st.mask().iter().collect()
         };
         let get: Vec<Value> = hs.iter().map(|&h| optjs(st.get(h))).collect();
-        json!({"mask": mask, "get": get})
+        drop(st);
+        match T::read_events(world) {
+            Some(evs) => json!({"mask": mask, "get": get, "evs": evs}),
+            None => json!({"mask": mask, "get": get}),
+        }
     }
 
     fn with_builder<'a>(&self, b: EntityBuilder<'a>, c: (u32, u32)) -> EntityBuilder<'a> {
